@@ -296,6 +296,95 @@ func checkCustomQuery(w *World, r *Result) {
 		// the placeholder text is "$"+input.VarName+"$" of the same element
 		return true
 	})
+	if !numOK {
+		// merged form: the placeholder is numbered where the input is appended, with the count of inputs kept so far
+		// plus one: `len(<dedup set>)+1` read before the set grows, or `len(out.Inputs)+1` read before the append
+		// (both under the conditions of the append itself)
+		condsOf := func(n ast.Node) string {
+			return strings.Join(condSetN(info, pathCondsNoLoop(fi, n), nil), " && ")
+		}
+		appConds := condsOf(app)
+		// sameUpTo: n runs under the conditions of the append, except for conditions whose failure ends the whole
+		// function (a panic or a return: no input is appended afterwards either)
+		sameUpTo := func(n ast.Node) bool {
+			have := map[string]bool{}
+			for _, c := range condSetN(info, pathCondsNoLoop(fi, n), nil) {
+				have[c] = true
+			}
+			for _, c := range pathCondsNoLoop(fi, app) {
+				k := normCond(info, c, nil)
+				if have[k] {
+					delete(have, k)
+					continue
+				}
+				ends := false
+				if c.exit != nil && len(c.exit.Body.List) > 0 {
+					last := c.exit.Body.List[len(c.exit.Body.List)-1]
+					if p, _ := isPanicStmt(info, last); p {
+						ends = true
+					}
+					if _, isRet := last.(*ast.ReturnStmt); isRet {
+						ends = true
+					}
+				}
+				if !ends {
+					return false
+				}
+			}
+			return len(have) == 0
+		}
+		var setStore ast.Node
+		ast.Inspect(fi.Decl.Body, func(y ast.Node) bool {
+			if as, ok := y.(*ast.AssignStmt); ok && len(as.Lhs) == 1 {
+				if ix, ok := as.Lhs[0].(*ast.IndexExpr); ok && identOf(ix.X) != nil && objOf(info, identOf(ix.X)) == setObj && setObj != nil {
+					setStore = as
+				}
+			}
+			return true
+		})
+		ast.Inspect(fi.Decl.Body, func(y ast.Node) bool {
+			call := sprintfView(info, y)
+			if call == nil || len(call.Args) != 2 {
+				return true
+			}
+			if tv := info.Types[call.Args[0]]; tv.Value == nil || constant.StringVal(tv.Value) != "$%d" {
+				return true
+			}
+			numPos = call.Pos()
+			if condsOf(call) != appConds {
+				return true
+			}
+			// the number: an expression, or a local bound once to one
+			num := ast.Unparen(call.Args[1])
+			at := num.Pos()
+			if id := identOf(num); id != nil {
+				ds := defsIn(info, fi.Decl, objOf(info, id))
+				if len(ds) != 1 {
+					return true
+				}
+				num, at = ast.Unparen(ds[0]), ds[0].Pos()
+			}
+			be, ok := num.(*ast.BinaryExpr)
+			if !ok || be.Op != token.ADD {
+				return true
+			}
+			if k, ok := constInt(info, be.Y); !ok || k != 1 {
+				return true
+			}
+			ln, ok := ast.Unparen(be.X).(*ast.CallExpr)
+			if !ok || !isBuiltinCall(info, ln, "len") || len(ln.Args) != 1 {
+				return true
+			}
+			arg := ast.Unparen(ln.Args[0])
+			if id := identOf(arg); id != nil && setObj != nil && objOf(info, id) == setObj && setStore != nil && at < setStore.Pos() && sameUpTo(setStore) {
+				numOK = true
+			}
+			if sel, ok := arg.(*ast.SelectorExpr); ok && info.Uses[sel.Sel] == inputs && at < app.Pos() {
+				numOK = true
+			}
+			return true
+		})
+	}
 	if !numPos.IsValid() {
 		numPos = fi.Decl.Pos()
 	}
